@@ -1,11 +1,16 @@
 (** C07 - FindSequenceOnDisk returns exactly the pattern's on-disk frames, never panics.
     Statements only; proofs in Proofs/DiskProofs.v and Proofs/TotalProofs.v.
     Proof on the model, the operating system being an oracle function [rd].
-    Partial: "every frame path of the result exists on disk" and "all files of one
-    width are returned" rest on the listing's exact cover (C05) applied to the
-    template branch; here they are covered by the check's oracle on real
-    directories, and by the proved facts below about WHICH entries are considered. *)
-From GFS Require Import Base Dec Regex GenRegex GenPadTables Ranges Pad FrameSet Path Seq Listing DiskProofs TotalProofs.
+    [tmpl_ok t] (LookupProofs.v): the pattern's directory ends in '/', no '/' in
+    basename or extension, no newline or pad token in directory+basename, the
+    extension is empty or starts with '.'.  [frames_ok h t names]: the directory's
+    non-directory names are distinct; every name taken by the pattern has a frame
+    text that is not a negative zero (K1) and is small; and the "digit base" finding
+    K6 is excluded (a pattern WITHOUT pad token whose basename ends in a digit,
+    with exactly one matching file: see [digit_base_refuted]).
+    Partial: what Readdir/Stat report is observed on real directories, not proved. *)
+From Coq Require Import Permutation.
+From GFS Require Import Base Dec Regex GenRegex GenPadTables Ranges Pad FrameSet Path Seq Listing DiskProofs TotalProofs LookupProofs.
 Local Open Scope Z_scope.
 
 (** never a panic (and no fuel artefact), for every pattern, option set and directory content *)
@@ -39,6 +44,72 @@ Theorem strict_padding_width : forall pat st opts rd q t,
   new_fileseq pat (style_of_int (eff_style st opts)) = Ok t -> q_pad t <> [] -> q_zfill q = q_zfill t.
 Proof. exact find_seq_strict. Qed.
 Print Assumptions strict_padding_width.
+
+(** soundness: every frame path of the returned sequence is the template's directory plus the
+    name of a regular file (or link to one) of the scanned directory that the pattern takes *)
+Theorem find_one_sound : forall pat st opts rd q t,
+  find_seq_on_disk pat st opts rd = Ok (Some q) ->
+  new_fileseq pat (style_of_int (eff_style st opts)) = Ok t ->
+  tmpl_ok t ->
+  (forall ents, rd (lookup_dir t) = Some ents -> frames_ok (lookup_hidden opts) t (non_dirs ents)) ->
+  exists ents, rd (lookup_dir t) = Some ents /\
+    q_dir q = q_dir t /\ q_base q = q_base t /\ q_ext q = q_ext t /\
+    (1 <= q_zfill q)%Z /\ (exists f, q_fs q = Some f) /\
+    forall p, In p (q_paths q) ->
+      exists n, In n (non_dirs ents) /\ taken (lookup_hidden opts) t n = true /\ p = q_dir t ++ n.
+Proof. exact LookupProofs.find_one_sound. Qed.
+Print Assumptions find_one_sound.
+
+(** completeness: when the files named basename+digits+extension share one digit width, ALL of
+    them are returned (unless StrictPadding rejects that width) *)
+Theorem find_one_complete_uniform : forall pat st opts rd t ents w,
+  new_fileseq pat (style_of_int (eff_style st opts)) = Ok t ->
+  tmpl_ok t ->
+  rd (lookup_dir t) = Some ents ->
+  (forall n, ~ In (n, KLinkDangling) ents) ->
+  frames_ok (lookup_hidden opts) t (non_dirs ents) ->
+  let names := tnames (lookup_hidden opts) t (non_dirs ents) in
+  names <> [] ->
+  (forall n, In n names -> blen (frame_text t n) = w) ->
+  (lookup_strict opts = false \/ q_pad t = [] \/ q_zfill t = w) ->
+  exists q, find_seq_on_disk pat st opts rd = Ok (Some q) /\
+    q_dir q = q_dir t /\ q_base q = q_base t /\ q_ext q = q_ext t /\ q_zfill q = w /\
+    Permutation (q_paths q) (map (fun n => q_dir t ++ n) names).
+Proof. exact LookupProofs.find_one_complete_uniform. Qed.
+Print Assumptions find_one_complete_uniform.
+
+(** with StrictPadding a width other than the pattern's gives nil *)
+Theorem strict_rejects_other_width : forall pat st opts rd t ents w,
+  new_fileseq pat (style_of_int (eff_style st opts)) = Ok t ->
+  tmpl_ok t ->
+  rd (lookup_dir t) = Some ents ->
+  (forall n, ~ In (n, KLinkDangling) ents) ->
+  frames_ok (lookup_hidden opts) t (non_dirs ents) ->
+  let names := tnames (lookup_hidden opts) t (non_dirs ents) in
+  names <> [] ->
+  (forall n, In n names -> blen (frame_text t n) = w) ->
+  lookup_strict opts = true -> q_pad t <> [] -> q_zfill t <> w ->
+  find_seq_on_disk pat st opts rd = Ok None.
+Proof. exact find_one_strict_rejects_uniform. Qed.
+Print Assumptions strict_rejects_other_width.
+
+(** nothing taken: nil *)
+Theorem nothing_matching_is_nil : forall pat st opts rd t ents,
+  new_fileseq pat (style_of_int (eff_style st opts)) = Ok t ->
+  rd (lookup_dir t) = Some ents -> (forall n, ~ In (n, KLinkDangling) ents) ->
+  tnames (lookup_hidden opts) t (non_dirs ents) = [] ->
+  find_seq_on_disk pat st opts rd = Ok None.
+Proof. exact find_one_none_taken. Qed.
+Print Assumptions nothing_matching_is_nil.
+
+(** the digit-base guard is needed: pattern "a1-2.exr" with the single file a15.exr returns
+    a sequence whose only path, a105.exr, does not exist (known finding K6) *)
+Example digit_base_refuted :
+  match find_seq_on_disk (s2b "d/a1-2.exr") 1 [] (fun _ => Some [(s2b "a15.exr", KFile)]) with
+  | Ok (Some q) => q_paths q = [s2b "d/a105.exr"]
+  | _ => False
+  end.
+Proof. vm_compute. reflexivity. Qed.
 
 (** siblings that merely share the prefix and suffix are ignored: an entry enters the
     template bucket only if its name is basename ++ frame ++ extension with [frame] a
